@@ -291,6 +291,12 @@ impl<'tcx> Dumper<'tcx> {
                 }
             }
         }
+        if let Const::Val(ConstValue::Scalar(mir::interpret::Scalar::Ptr(ptr, _)), _) = c.const_ {
+            let (prov, _off) = ptr.into_raw_parts();
+            if let Some(mir::interpret::GlobalAlloc::Static(sdid)) = tcx.try_get_global_alloc(prov.alloc_id()) {
+                items.push(("static", js(&self.path(sdid))));
+            }
+        }
         let tenv = TypingEnv::post_analysis(tcx, owner);
         let is_scalar = ty.is_integral() || ty.is_bool() || ty.is_char() || ty.is_floating_point();
         if is_scalar {
